@@ -225,6 +225,8 @@ void harness(void) {
     ASSERT(((st & 0x0200000000000000ull) != 0) == (IR_LD32(Q[k] + P_OFF_side_cnt) > 0), "COUNT: side-count bit consistent with the side counter");
     ASSERT((st & 0x3fffffffull) == 0, "quiescent queue has no drain owner");
     if (suspend_cnt[k] == 0 && !inactive[k]) ASSERT(IR_LD64(Q[k] + P_OFF_items_tail) == 0, "quiescent runnable queue has an empty item list");
+    if (suspend_cnt[k] == 0 && !inactive[k]) ASSERT(((st >> 41) & 0x1fff) == 0x1000ull - (u64)IR_LD16(Q[k] + P_OFF_dq_width) && !(st & (0x0040000000000000ull | 0x0000010000000000ull)),
+      "WIDTH: at quiescence the queue's width is entirely free again: no phantom reader, barrier or pending barrier is left in the state word (a leaked unit blocks every later barrier, an extra one lets a barrier overlap a reader)");
   }
 #ifdef LIFETIME
   for (int k = 0; k < NQ; k++) if (k < nq) {
